@@ -26,7 +26,10 @@ for pid in ids:
         "technique": module.TECHNIQUE,
         "level_claimed": {"category": "exploration", "text": module.LEVEL_TEXT,
                           "design_ref": "DESIGN.md section 7, %s" % pid},
-        "level_note": module.LEVEL_NOTE,
+        "level_note": module.LEVEL_NOTE + " Common to all checks: library calls go through pbt/core.lib_call "
+                      "(repeat-call reproducibility probe, held results, warnings escalated on the repeat, tiny numpy "
+                      "print threshold) and receive pooled argument objects (pbt/gens.pooled); see DESIGN.md, "
+                      "'Corrections and deviations'.",
     })
 manifest = {
     "version": 1,
